@@ -82,15 +82,31 @@ func c17ConfigYAML(row C17Row, b *c17Builder, seed int64, phase int) string {
 		}
 		w("%s: %v\n", k, v)
 	}
-	if len(b.models) > 0 {
+	if len(b.models)+len(b.resolverFields) > 0 {
 		w("models:\n")
-		keys := make([]string, 0, len(b.models))
+		set := map[string]bool{}
 		for k := range b.models {
+			set[k] = true
+		}
+		for k := range b.resolverFields {
+			set[k] = true
+		}
+		keys := make([]string, 0, len(set))
+		for k := range set {
 			keys = append(keys, k)
 		}
 		sort.Strings(keys)
 		for _, k := range keys {
-			w("  %s:\n    model: %s\n", k, b.models[k])
+			w("  %s:\n", k)
+			if m, ok := b.models[k]; ok {
+				w("    model: %s\n", m)
+			}
+			if fs := b.resolverFields[k]; len(fs) > 0 {
+				w("    fields:\n")
+				for _, f := range fs {
+					w("      %s:\n        resolver: true\n", f)
+				}
+			}
 		}
 	}
 	return sb.String()
@@ -249,6 +265,10 @@ func C17Render(root, importBase string, row C17Row, seed int64, nfiles int, quir
 	for k, v := range c17HandFiles(row, b, seed) {
 		p.Files[k] = v
 	}
+	// the project root is a package of its own (like the server command of a real project):
+	// without a model block gqlgen's default model file is <root>/models_gen.go and the
+	// validation pass loads that package
+	p.Files["doc.go"] = "// Package scratch is the root of a generated C17 project.\npackage scratch\n"
 	if row.S("models") == "bound" {
 		p.Files["gqlgen.yml"] = c17ConfigYAML(row, b, seed, 1)
 		p.YAML2 = c17ConfigYAML(row, b, seed, 2)
@@ -296,9 +316,10 @@ func C17RenderProject(root, importBase string, row C17Row, seed int64) error {
 type C17Outcome struct {
 	Gen    string  `json:"gen"`   // ok | error | cfgerror | panic | timeout | crash
 	Pass   int     `json:"pass"`  // generator pass that failed (models = bound has two)
-	Build  bool    `json:"build"` // go build ./... ok
-	Vet    bool    `json:"vet"`   // go vet ./... ok (or not run)
-	VetRun bool    `json:"vet_run"`
+	Build    bool `json:"typechecks"` // all generated packages type-check (go vet's type-check; go build when run)
+	Vet      bool `json:"vet"`        // no vet analyzer diagnostic
+	VetRun   bool `json:"vet_run"`
+	BuildRun bool `json:"build_run"` // go build ./... was run as well
 	Kind   string  `json:"kind"`  // "" | gen-error | gen-panic | gen-timeout | gen-crash | build | vet
 	Class  string  `json:"class"` // normalised first message
 	Detail string  `json:"detail"`
@@ -379,8 +400,9 @@ func c17Head(s string, n int) string {
 }
 
 // Generate runs the real generator on the written project (both passes for
-// models = bound), then go build and go vet of all generated packages.
-func (p *C17Project) Generate(vet bool) C17Outcome {
+// models = bound), then go vet ./... (type-check of all generated packages +
+// analyzers) and, if build is set, go build ./... as well.
+func (p *C17Project) Generate(build bool) C17Outcome {
 	o := C17Outcome{Build: false, Vet: false}
 	opts := GenOpts{Explicit: true}
 	if p.Row.B("stub") {
@@ -422,35 +444,61 @@ func (p *C17Project) Generate(vet bool) C17Outcome {
 			return o
 		}
 	}
-	out, err := GoBuild(p.Root)
-	if err != nil {
-		if strings.Contains(err.Error(), "timeout after") {
-			o.Kind, o.Detail = "infra", "go build: "+err.Error()
-			return o
-		}
-		o.Kind = "build"
-		o.Class = c17Normalize(c17FirstError(out))
-		o.Detail = "go build ./...: " + c17Head(out, 3000)
-		return o
-	}
-	o.Build = true
-	if !vet {
-		o.Vet = true
-		return o
-	}
+	// go vet type-checks every generated package from source (go/types) after compiling
+	// the packages it depends on, and runs the vet analyzers: a type error is reported
+	// as "vet: <pos>: <message>".
+	out, err := GoVet(p.Root)
 	o.VetRun = true
-	out, err = GoVet(p.Root)
 	if err != nil {
 		if strings.Contains(err.Error(), "timeout after") {
 			o.Kind, o.Detail = "infra", "go vet: "+err.Error()
 			return o
 		}
-		o.Kind = "vet"
-		o.Class = c17Normalize(c17FirstError(out))
+		first := ""
+		typeErr := false
+		for _, ln := range strings.Split(out, "\n") {
+			t := strings.TrimSpace(ln)
+			if t == "" || strings.HasPrefix(t, "#") || strings.HasPrefix(t, "go: ") {
+				continue
+			}
+			if first == "" {
+				first = t
+			}
+			if strings.HasPrefix(t, "vet: ") || strings.Contains(t, "syntax error") || strings.Contains(t, "typecheck") {
+				typeErr = true
+				first = strings.TrimPrefix(t, "vet: ")
+				break
+			}
+		}
+		if typeErr || !c17ReLoc.MatchString(first) {
+			// type / syntax error, or a compile error in a package the vetted one depends on
+			o.Kind = "build"
+		} else {
+			o.Kind = "vet"
+			o.Build = true
+		}
+		o.Class = c17Normalize(first)
 		o.Detail = "go vet ./...: " + c17Head(out, 3000)
 		return o
 	}
-	o.Vet = true
+	o.Build, o.Vet = true, true
+	if !build {
+		return o
+	}
+	// the compiler proper, for a subset of the points
+	o.BuildRun = true
+	out, err = GoBuild(p.Root)
+	if err != nil {
+		if strings.Contains(err.Error(), "timeout after") {
+			o.Kind, o.Detail = "infra", "go build: "+err.Error()
+			return o
+		}
+		o.Build = false
+		o.Kind = "build"
+		o.Class = c17Normalize(c17FirstError(out))
+		o.Detail = "go build ./...: " + c17Head(out, 3000)
+		return o
+	}
 	return o
 }
 
